@@ -767,6 +767,8 @@ def run(chk):
     rule_optext(chk, fm, px, lx)
     rule_adj(chk, fm, px, lx)
     rule_literals(chk, fm)
+    import semmodel
+    semmodel.rule_roundtrip(chk, "C09.semantic")
 
 
 def rule_total(chk, fm):
